@@ -701,12 +701,24 @@ class Fn:
 
     def edge_fact(self, bid, idx):
         """First fact established by taking successor #idx of block bid: (key, pol, atom) or None."""
-        return _edge_fact(self, bid, idx)
+        fs = self.edge_facts(bid, idx)
+        return fs[0] if fs else None
 
-    def edge_facts(self, bid, idx):
-        """All facts established by that edge (several when `a || b` is false / `a && b` is true
-        and the condition is evaluated as a value)."""
-        return _edge_facts(self, bid, idx)
+    def edge_facts(self, bid, idx, all=False):
+        """The facts established by that edge (several when `a || b` is false / `a && b` is true and the condition is
+        evaluated as a value).  By default only facts that decide an atom: a disjunctive composite (`a && b` known
+        false, `a || b` known true) names atoms without fixing any of them; rules that reason about such a composite
+        as a whole (or that hand the facts to a path search) ask for all=True."""
+        fs = _edge_facts(self, bid, idx)
+        if all:
+            return fs
+        out = []
+        for f in fs:
+            a = strip(f[2])
+            if isinstance(a, dict) and a.get('k') == 'bin' and a.get('op') in ('&&', '||') and (a['op'] == '&&') != bool(f[1]):
+                continue
+            out.append(f)
+        return out
 
     def reachable_blocks(self):
         return self.reachable_from(self.entry) | {self.entry}
